@@ -3139,6 +3139,12 @@ fn equiv_case(case_seed: u64, rep: &mut Report) {
         match (&ra, &rb) {
             (Ok(qa), Ok(db)) => {
                 rep.count("both_ok", 1);
+                rep.count(&format!("both_ok[{}]", fam), 1);
+                if let Op::NodeList { limit, offset, .. } | Op::EdgeList { limit, offset, .. } = &op {
+                    if *limit == Some(0) || *offset == Some(0) {
+                        rep.count("windows_with_zero_agreed", 1);
+                    }
+                }
                 if let Err(why) = results_agree(qa, db, rep) {
                     // with LIMIT/OFFSET the window shifts; classify on the same SELECT without them
                     let unwindowed = match &op {
@@ -3179,7 +3185,7 @@ fn equiv_case(case_seed: u64, rep: &mut Report) {
                 }
             }
             (Err(ea), Ok(db)) => {
-                let neg = op.neg_position().filter(|_| ea.contains("Unary(Neg") || ea.contains("Expected number") || ea.contains("Expected positive integer"));
+                let neg = op.neg_position().filter(|_| ea.contains("Unary(Neg") || ea.contains("Expected number"));
                 let sig = match neg {
                     Some(pos) => format!("equivalence:negative-literal-rejected:{}", pos),
                     None => format!("equivalence:text-fails-direct-succeeds:{}", fam),
@@ -3290,7 +3296,7 @@ fn main() {
         }
         // ---- equivalence (in process)
         if want("equiv") {
-            let n = args.extra_u64("programs", args.by_tier(500, 10_000));
+            let n = args.extra_u64("programs", args.by_tier(300, 8_000));
             let rep = par_cases(args.threads, args.seed ^ 0xE9, n, args.budget(60, 420), |_i, s, r| equiv_case(s, r));
             total.merge(rep);
         }
@@ -3329,13 +3335,13 @@ fn main() {
     };
     let meta = Meta {
         property: "C15",
-        rule: "totality: one evaluation = one input string (<= 4096 bytes: random bytes, printable ASCII, unicode incl. characters whose uppercase has another length, keyword/operator soup, 1-4 token-level mutations of ~870 statements taken from the parser's and the router's own tests, nesting of 19 kinds up to the depth that fits in 4 KiB) pushed through tokenize, parse_expr, parse, parse_all (each twice) and, when execution stays inside the engines, QueryRouter::execute_parsed and ::execute, on a 2 MiB-stack thread of a child process; distinct by hash of the text, non-trivial if it lexes to >= 2 tokens. precedence: one evaluation = one expression tree (all 722 two-operator, 180 unary/binary and 34 295 three-operator trees; random trees of height 2-8 over all 19 binary and 3 unary operators plus IS NULL/IN/BETWEEN/LIKE/calls/CASE/arrays/tuples) whose minimal-parentheses and fully-parenthesised prints both parse back to it through parse_expr and through the statement parser in SELECT-item, WHERE and UPDATE-SET position; distinct by hash of the minimal print, non-trivial with >= 2 operators. equivalence: one evaluation = one completed program of 20-49 generated statements (CREATE/DROP TABLE, CREATE INDEX, SHOW TABLES, INSERT, SELECT with projection/ORDER BY/LIMIT/OFFSET, UPDATE, DELETE, NODE/EDGE CREATE/GET/DELETE, NEIGHBORS, PATH, EMBED STORE/GET/DELETE, SIMILAR) run as text on one router and as direct calls on a twin, compared after every statement and on the final engine states; distinct by hash of the statement texts.",
+        rule: "totality: one evaluation = one input string (<= 4096 bytes: random bytes, printable ASCII, unicode incl. characters whose uppercase has another length, keyword/operator soup, 1-4 token-level mutations of ~870 statements taken from the parser's and the router's own tests, nesting of 19 kinds up to the depth that fits in 4 KiB) pushed through tokenize, parse_expr, parse, parse_all (each twice) and, when execution stays inside the engines, QueryRouter::execute_parsed and ::execute, on a 2 MiB-stack thread of a child process; distinct by hash of the text, non-trivial if it lexes to >= 2 tokens. precedence: one evaluation = one expression tree (all 722 two-operator, 180 unary/binary and 34 295 three-operator trees; random trees of height 2-8 over all 19 binary and 3 unary operators plus IS NULL/IN/BETWEEN/LIKE/calls/CASE/arrays/tuples) whose minimal-parentheses and fully-parenthesised prints both parse back to it through parse_expr and through the statement parser in SELECT-item, WHERE and UPDATE-SET position; distinct by hash of the minimal print, non-trivial with >= 2 operators. equivalence: one evaluation = one completed program of 20-49 generated statements (CREATE/DROP TABLE, CREATE INDEX, SHOW TABLES, INSERT, SELECT with projection/ORDER BY/LIMIT/OFFSET, UPDATE, DELETE, NODE/EDGE CREATE/GET/DELETE/LIST, NEIGHBORS [BY SIMILAR], PATH, FIND NODE/EDGE, EMBED STORE/GET/DELETE, SHOW/COUNT EMBEDDINGS, SIMILAR [CONNECTED TO], ENTITY CREATE/CONNECT; every LIMIT/OFFSET is drawn from {absent, 0, 1-4, 10, larger than any result}) run as text on one router and as direct calls on a twin, compared after every statement and on the final engine states; distinct by hash of the statement texts.",
         assumptions: vec![
             "the documented table is expr.rs:7-18 / the book's Binding Power Table: OR < AND < comparison < | < ^ < & < shifts < + - || < * / % < unary NOT - ~ < postfix, binary operators left-associative; where it is silent (a compound operand of IS NULL / IN / BETWEEN / LIKE, bounds of BETWEEN, LIKE pattern) the printer always writes parentheses".into(),
             "expr.rs answering TooDeep (its documented nesting limit of 64) is an error, not a regrouping; such prints are skipped and counted".into(),
             "statements are generated in the syntax the statement parser accepts (its own unit tests: PATH a -> b, SIMILAR .. LIMIT n COSINE); the book's PATH .. TO .. / METRIC spellings are not judged".into(),
             "router execution in the totality part is limited to statement kinds that stay inside the relational/graph/vector engines; panics whose location is outside neumann_parser/query_router are counted, not judged".into(),
-            "results are compared up to representation: NULL vs absent column, row order without ORDER BY, neighbour order, equal-length shortest paths, equal-score similarity ties, property values by typed value".into(),
+            "results are compared up to representation: NULL vs absent column, row order without ORDER BY, neighbour order, equal-length shortest paths, equal-score similarity ties, property values by typed value; a LIMIT/OFFSET window over a listing whose order is unspecified (NODE LIST, EDGE LIST, FIND) is judged by its size, by membership in the direct listing and by absence of duplicates; FIND .. WHERE is only judged on elements whose property is an integer".into(),
             "an error is required to be an error on both sides; error texts are not compared".into(),
         ],
         floors,
